@@ -23,6 +23,9 @@ import (
 //   mark  u unmarked | f known failing | k known flaky
 //   fb    1 peer feedback recorded | 0
 //   sf    1 feedback recorded before the outcome | 0 after
+// optionally followed by two more characters: what the peers SAID (keys of c04Msgs) — the message of
+// the client-reported error (kind c) and the feedback text of the reference peer.  Texts are arbitrary
+// strings; what a peer says must never change what happened.
 // the case's name is "s/c<i>".  impl = report()'s verdict, the three summary lines parsed back
 // to numbers and the names on the FAILED / INFO lines.
 
@@ -65,9 +68,40 @@ var (
 	c04ReExpected = regexp.MustCompile(`^\(Another (\d+) failed as expected due to being known failures/flakes\.\)\n$`)
 )
 
+// c04Msgs: texts a peer may report (ClientErrorResult.message is a plain optional string, feedback is
+// a string): default, empty, a line break, blank lines only, one blank, several lines with blank ones
+// and trailing white space, format verbs, 10 KB, the separator of the feedback lines, non-ASCII.
+var c04Msgs = map[byte]string{
+	'd': "client could not do it",
+	'e': "",
+	'n': "\n",
+	'b': " \r\n\t\n",
+	's': " ",
+	'm': "first line\n\n  third line  \r\n",
+	'f': "%s %d %!v(MISSING) 100% %[2]q",
+	'l': strings.Repeat("long ", 2000),
+	'c': "a: b: c",
+	'u': "non-ASCII: \u00fcn\u00ef \u2713",
+}
+
+var c04MsgKeys = []byte("denbsmflcu")
+
 func c04Report(in c04In) c04Out {
 	cases := make([]cc.VerifC04Case, len(in.Cases))
 	for i, code := range in.Cases {
+		errMsg, fbMsg := c04Msgs['d'], "peer feedback"
+		if len(code) == 6 {
+			m1, ok1 := c04Msgs[code[4]]
+			m2, ok2 := c04Msgs[code[5]]
+			if !ok1 || !ok2 {
+				panic("c04: bad case code " + code)
+			}
+			errMsg, fbMsg = m1, m2
+			if code[5] == 'd' {
+				fbMsg = "peer feedback"
+			}
+			code = code[:4]
+		}
 		if len(code) != 4 {
 			panic("c04: bad case code " + code)
 		}
@@ -78,7 +112,7 @@ func c04Report(in c04In) c04Out {
 		}
 		cases[i] = cc.VerifC04Case{
 			Name: fmt.Sprintf("s/c%d", i), Kind: kind, Mark: string(code[1]),
-			Feedback: code[2] == '1', SidebandFirst: code[3] == '1',
+			Feedback: code[2] == '1', SidebandFirst: code[3] == '1', ErrMsg: errMsg, FbMsg: fbMsg,
 		}
 	}
 	ok, msgs := cc.VerifC04Report(in.Total, cases)
@@ -123,11 +157,23 @@ func runC04(c *gen.Ctx) error {
 			}
 		}
 	}
+	// what the peers said: a key of c04Msgs for the client's error message (kind c) and for the
+	// feedback text (fb = 1), the default otherwise
+	said := func(c3 string) string {
+		e, f := byte('d'), byte('d')
+		if c3[0] == 'c' {
+			e = c04MsgKeys[r.Intn(len(c04MsgKeys))]
+		}
+		if c3[2] == '1' {
+			f = c04MsgKeys[r.Intn(len(c04MsgKeys))]
+		}
+		return string([]byte{e, f})
+	}
 	code := func(i int) string {
 		if r.Bool() {
-			return combos[i] + "1"
+			return combos[i] + "1" + said(combos[i])
 		}
-		return combos[i] + "0"
+		return combos[i] + "0" + said(combos[i])
 	}
 	// (i) exhaustive: every assignment to 1, 2 and 3 selected cases
 	for i := range combos {
@@ -163,10 +209,14 @@ func runC04(c *gen.Ctx) error {
 			default:
 				cs[k] = combos[r.Intn(len(combos))]
 			}
+			c3 := cs[k]
 			if r.Bool() {
 				cs[k] += "1"
 			} else {
 				cs[k] += "0"
+			}
+			if r.Chance(3, 4) {
+				cs[k] += said(c3)
 			}
 		}
 		extra := 0
